@@ -156,6 +156,13 @@ func (s *scen) handle(w http.ResponseWriter, r *http.Request) {
 	atomic.StoreInt32(&st.hi, b2i(hi))
 	sc := s.sc
 	hdrs := append(append([][2]string{}, sc.hdrs...), [2]string{"X-Req-Len", strconv.FormatInt(n, 10)})
+	// the credentials of the request as the handler received them (every client request carries the same three):
+	// a layer that passes must hand the handler the request the client sent
+	app := ""
+	if c, err := r.Cookie("app"); err == nil {
+		app = c.Value
+	}
+	hdrs = append(hdrs, [2]string{"X-Req-Cred", r.Header.Get("Authorization") + "/" + r.Header.Get("Proxy-Authorization") + "/" + app})
 	status := sc.status
 	if status == 0 {
 		status = http.StatusOK
@@ -516,6 +523,9 @@ func (s *scen) do(body int, hdr map[string]string) (*http.Response, *reqState, e
 		req.Header.Set("X-Src", s.cur)
 	}
 	req.Header.Set("X-Req-Id", id)
+	req.Header.Set("Authorization", "Bearer-c20")
+	req.Header.Set("Proxy-Authorization", "Basic-c20p")
+	req.AddCookie(&http.Cookie{Name: "app", Value: "c20"})
 	for k, v := range hdr {
 		req.Header.Set(k, v)
 	}
